@@ -297,6 +297,8 @@ pub struct ProvState {
     pub called_without_ready: u64,
     pub pending_left: u32,
     pub pending_init: bool,
+    /// polls of the futures returned by `call`
+    pub future_polls: u64,
 }
 
 #[derive(Clone)]
@@ -335,11 +337,13 @@ pub static TRACE_MARK: std::sync::atomic::AtomicBool = std::sync::atomic::Atomic
 pub struct AnswerFuture {
     pending: u32,
     answer: Option<Result<GetSigningKeyResponse, BoxError>>,
+    state: Arc<Mutex<ProvState>>,
 }
 
 impl Future for AnswerFuture {
     type Output = Result<GetSigningKeyResponse, BoxError>;
     fn poll(mut self: Pin<&mut Self>, cx: &mut Context<'_>) -> Poll<Self::Output> {
+        self.state.lock().unwrap().future_polls += 1;
         if self.pending > 0 {
             self.pending -= 1;
             cx.waker().wake_by_ref();
@@ -418,7 +422,8 @@ impl Service<GetSigningKeyRequest> for Provider {
                 },
             ),
         };
-        AnswerFuture { pending, answer: Some(answer) }
+        drop(st);
+        AnswerFuture { pending, answer: Some(answer), state: self.0.clone() }
     }
 }
 
@@ -472,6 +477,10 @@ pub struct ValOut {
     pub calls: Vec<CallRec>,
     pub called_without_ready: u64,
     pub queue_left: usize,
+    /// executor polls of the validation future, readiness polls and answer-future polls seen by the provider
+    pub polls: u64,
+    pub ready_polls: u64,
+    pub future_polls: u64,
     /// set when the growable requirements container, after the case's operation history, does not hold
     /// the lists the reference semantics predicts
     pub reqs_mismatch: Option<String>,
@@ -520,6 +529,8 @@ pub fn validate_with(c: &Case, req: Request<Bytes>, prov: &mut Provider) -> ValO
     let opts = SignatureOptions { s3: c.s3, url_encode_form: c.fold };
     let calls_before = prov.0.lock().unwrap().calls.len();
     let mut reqs_mismatch: Option<String> = None;
+    let polls_seen = std::cell::Cell::new(0u64);
+    let (ready_before, fut_before) = { let st = prov.0.lock().unwrap(); (st.ready_polls, st.future_polls) };
     let r = catch_unwind(AssertUnwindSafe(|| {
         if c.vec_reqs && !c.req_ops.is_empty() {
             use scratchstack_aws_signature::SignedHeaderRequirements;
@@ -542,7 +553,7 @@ pub fn validate_with(c: &Case, req: Request<Bytes>, prov: &mut Provider) -> ValO
             if got != (c.always.clone(), c.ifreq.clone(), c.prefixes.clone()) {
                 reqs_mismatch = Some(format!("{:?}", got));
             }
-            block_on(sigv4_validate_request(req, &c.region, &c.service, prov, now, &reqs, opts)).0
+            { let (r, n) = block_on(sigv4_validate_request(req, &c.region, &c.service, prov, now, &reqs, opts)); polls_seen.set(n); r }
         } else if c.vec_reqs {
             // built through the mutating API, one name at a time
             let mut reqs = VecSignedHeaderRequirements::default();
@@ -555,13 +566,13 @@ pub fn validate_with(c: &Case, req: Request<Bytes>, prov: &mut Provider) -> ValO
             for a in &c.prefixes {
                 reqs.add_prefix(a);
             }
-            block_on(sigv4_validate_request(req, &c.region, &c.service, prov, now, &reqs, opts)).0
+            { let (r, n) = block_on(sigv4_validate_request(req, &c.region, &c.service, prov, now, &reqs, opts)); polls_seen.set(n); r }
         } else {
             let a: Vec<Cow<str>> = c.always.iter().map(|s| Cow::Borrowed(s.as_str())).collect();
             let b: Vec<Cow<str>> = c.ifreq.iter().map(|s| Cow::Borrowed(s.as_str())).collect();
             let p: Vec<Cow<str>> = c.prefixes.iter().map(|s| Cow::Borrowed(s.as_str())).collect();
             let reqs = SliceSignedHeaderRequirements::new(&a, &b, &p);
-            block_on(sigv4_validate_request(req, &c.region, &c.service, prov, now, &reqs, opts)).0
+            { let (r, n) = block_on(sigv4_validate_request(req, &c.region, &c.service, prov, now, &reqs, opts)); polls_seen.set(n); r }
         }
     }));
     let st = prov.0.lock().unwrap();
@@ -576,6 +587,9 @@ pub fn validate_with(c: &Case, req: Request<Bytes>, prov: &mut Provider) -> ValO
         calls,
         called_without_ready: st.called_without_ready,
         queue_left: st.queue.len(),
+        polls: polls_seen.get(),
+        ready_polls: st.ready_polls - ready_before,
+        future_polls: st.future_polls - fut_before,
         reqs_mismatch,
     };
     match r {
@@ -704,4 +718,66 @@ pub fn debug_views(c: &Case, req: Request<Bytes>) -> Vec<String> {
         out
     }));
     r.unwrap_or_default()
+}
+
+/// The same validation with the body handed over as another `IntoRequestBytes` type
+/// (`kind`: 0 = Bytes, 1 = Vec<u8>, 2 = () — only meaningful for an empty body) and, when `adapter` is
+/// set, with the key provider wrapped by `service_for_signing_key_fn` instead of the instrumented service.
+/// Returns the outcome class and (method, uri, body, principal) of the returned request.
+pub fn validate_variant(c: &Case, kind: u8, adapter: bool) -> Option<(String, Option<(String, String, Vec<u8>, String)>)> {
+    use scratchstack_aws_signature::service_for_signing_key_fn;
+    let now = mk_time(c.now.0, c.now.1)?;
+    let opts = SignatureOptions { s3: c.s3, url_encode_form: c.fold };
+    let a: Vec<Cow<str>> = c.always.iter().map(|s| Cow::Borrowed(s.as_str())).collect();
+    let b: Vec<Cow<str>> = c.ifreq.iter().map(|s| Cow::Borrowed(s.as_str())).collect();
+    let p: Vec<Cow<str>> = c.prefixes.iter().map(|s| Cow::Borrowed(s.as_str())).collect();
+    let reqs = SliceSignedHeaderRequirements::new(&a, &b, &p);
+    let base = build_request(c)?;
+    let (parts, body) = base.into_parts();
+    let answer = c.answer.clone();
+    let ready_err = c.ready_err.clone();
+    let run = move || -> Result<(http::request::Parts, Bytes, scratchstack_aws_signature::auth::SigV4AuthenticatorResponse), BoxError> {
+        macro_rules! go {
+            ($req:expr) => {{
+                if adapter {
+                    let shared = std::sync::Arc::new(answer.clone());
+                    // (bound to a variable first: passed directly, the adapter's `FnOnce` bound would make the
+                    // closure FnOnce-only and the resulting ServiceFn would not be a Service)
+                    let f = move |_r: GetSigningKeyRequest| {
+                        let a = shared.clone();
+                        async move {
+                            match &*a {
+                                Answer::Err(pe) => Err(to_box(pe)),
+                                Answer::Key { key, identity } => {
+                                    let mut k = [0u8; 32];
+                                    let n = key.len().min(32);
+                                    k[..n].copy_from_slice(&key[..n]);
+                                    GetSigningKeyResponse::builder().principal(principal_for(identity)).session_data(session_for(identity)).signing_key(raw_signing_key(&k)).build().map_err(|e| -> BoxError { Box::new(e) })
+                                }
+                            }
+                        }
+                    };
+                    let mut svc = service_for_signing_key_fn(f);
+                    block_on(sigv4_validate_request($req, &c.region, &c.service, &mut svc, now, &reqs, opts)).0
+                } else {
+                    let mut prov = provider_for(vec![Entry { ready_err: ready_err.clone(), pending_ready: 0, pending_answer: 0, answer: answer.clone() }]);
+                    block_on(sigv4_validate_request($req, &c.region, &c.service, &mut prov, now, &reqs, opts)).0
+                }
+            }};
+        }
+        match kind {
+            1 => go!(Request::from_parts(parts, body.to_vec())),
+            2 => go!(Request::from_parts(parts, ())),
+            _ => go!(Request::from_parts(parts, body)),
+        }
+    };
+    let r = catch_unwind(AssertUnwindSafe(run));
+    Some(match r {
+        Err(_) => ("PANIC".to_string(), None),
+        Ok(Ok((parts, body, resp))) => ("OK".to_string(), Some((parts.method.to_string(), parts.uri.to_string(), body.to_vec(), format!("{:?}", resp.principal())))),
+        Ok(Err(e)) => match e.downcast::<SignatureError>() {
+            Ok(se) => (format!("ERR {}", kind_of(&se)), None),
+            Err(_) => ("ERR NotASignatureError".to_string(), None),
+        },
+    })
 }
